@@ -14,6 +14,7 @@ import (
 func init() {
 	register("C15", "UnmarshalJSON leaves the target unchanged on error and never dereferences a nil receiver; MarshalJSON emits null only for the empty case and never marshals the receiver itself", func(c *core.Ctx) {
 		JSONMethods(c)
+		JSONQuote(c, "R-JSONQUOTE")
 	})
 }
 
